@@ -363,7 +363,7 @@ def _run(pid, mod, t, s, a, scratch, t0, cf):
         return 1
     if inconclusive:
         for r in inconclusive[:10]:
-            print(f"INCONCLUSIVE property={pid} reason={r[:600]}")
+            print(f"INCONCLUSIVE property={pid} reason={r[-700:] if len(r) > 700 else r}")
         return 3
     print(f"{pid}: held on what was observed")
     return 0
